@@ -170,8 +170,11 @@ RECURSIVE CanonInitC(_, _), CanonInitPy(_, _)
 CanonInitC(v, st) == IF v.k = "list" THEN N("list", "", [i \in 1..Len(v.a) |-> CanonInitC(v.a[i], st)]) ELSE CanonC(v, st)
 CanonInitPy(v, st) == IF v.k = "list" THEN N("list", "", [i \in 1..Len(v.a) |-> CanonInitPy(v.a[i], st)]) ELSE CanonPy(v, st)
 
-RECURSIVE Flat(_)
-Flat(ss) == IF ss = <<>> THEN <<>> ELSE Head(ss) \o Flat(Tail(ss))
+\* concatenation of a sequence of sequences (balanced, so that long statement lists do not nest deeply)
+RECURSIVE FlatR(_, _, _)
+FlatR(ss, lo, hi) == IF lo > hi THEN <<>> ELSE IF lo = hi THEN ss[lo]
+                     ELSE FlatR(ss, lo, (lo + hi) \div 2) \o FlatR(ss, (lo + hi) \div 2 + 1, hi)
+Flat(ss) == FlatR(ss, 1, Len(ss))
 
 RECURSIVE CanonCStmt(_, _), CanonPyStmt(_, _)
 \* each returns the SEQUENCE of target statements the LNodes statement stands for
@@ -194,9 +197,8 @@ CanonCStmt(t, st) ==
     [] OTHER -> <<CanonC(t, st)>>
 
 CanonPyStmts(ss, st) == Flat([i \in 1..Len(ss) |-> CanonPyStmt(ss[i], st)])
-RECURSIVE CountLeaves(_)
-CountLeaves(v) == IF v.k # "list" THEN 1 ELSE IF v.a = <<>> THEN 0
-                  ELSE CountLeaves(v.a[1]) + CountLeaves(N("list", "", Tail(v.a)))
+RECURSIVE IsSingle(_)
+IsSingle(v) == v.k # "list" \/ (Len(v.a) = 1 /\ IsSingle(v.a[1]))      \* exactly one value in the initialiser
 RECURSIVE FirstLeaf(_)
 FirstLeaf(v) == IF v.k = "list" THEN FirstLeaf(v.a[1]) ELSE v
 CanonPyStmt(t, st) ==
@@ -208,7 +210,7 @@ CanonPyStmt(t, st) ==
          LET shape == N("tuple", "", [i \in 1..Len(t.a[2].a) |-> CanonPy(t.a[2].a[i], st)])
              dt == N("kw", "dtype", <<Leaf("sym", PyType(t.s, st))>>)
              rhs == IF t.a[3].k = "novalues" THEN N("call", "np.empty", <<shape, dt>>)
-                    ELSE IF CountLeaves(t.a[3]) = 1 THEN N("call", "np.full", <<shape, CanonPy(FirstLeaf(t.a[3]), st), dt>>)
+                    ELSE IF IsSingle(t.a[3]) THEN N("call", "np.full", <<shape, CanonPy(FirstLeaf(t.a[3]), st), dt>>)
                     ELSE N("call", "np.array", <<CanonInitPy(t.a[3], st), dt>>) IN
          <<N("assign", "=", <<CanonPy(t.a[1], st), rhs>>)>>
     [] t.k = "ForRange" ->
@@ -402,10 +404,22 @@ MultiIdxTrees ==
   \cup {Mk("Add", "", <<Mk("ArrayAccess", "A", <<Sym("q", "INT"), MI(<<Sym("i", "INT"), Sym("j", "INT")>>, <<IntL("2"), IntL("3")>>)>>, "REAL"),
                          Sym("y", "REAL")>>, "REAL")}
 
+\* every math function lnodes can produce (lnodes._ufl_call_lookup), over real and complex arguments where defined
+Fn1 == {"sqrt", "abs", "cos", "sin", "tan", "acos", "asin", "atan", "cosh", "sinh", "tanh", "exp", "ln"}
+MathTrees ==
+  LET x == Sym("x", "REAL")  y == Sym("y", "REAL")  z == Sym("z", "SCALAR")  n == Sym("n", "INT") IN
+  {Mk("MathFunction", f, <<a>>, a.d) : <<f, a>> \in Fn1 \X {x, z, Mk("Neg", "", <<x>>, "REAL"), Mk("Add", "", <<x, z>>, "SCALAR")}}
+  \cup {Mk("MathFunction", f, <<z>>, "SCALAR") : f \in {"real", "imag", "conj"}}
+  \cup {Mk("MathFunction", "erf", <<x>>, "REAL")}
+  \cup {Mk("MathFunction", "power", <<a, b>>, a.d) : <<a, b>> \in {x, z, Mk("FloatPos", "2.5", <<>>, "REAL")} \X {y, z, Mk("IntPos", "3", <<>>, "INT"), Mk("FloatNeg", "2.5", <<>>, "REAL")}}
+  \cup {Mk("MathFunction", f, <<x, y>>, "REAL") : f \in {"atan2", "min_value", "max_value"}}
+  \cup {Mk("MathFunction", f, <<a, x>>, a.d) : <<f, a>> \in {"bessel_j", "bessel_y"} \X {n, Mk("IntPos", "3", <<>>, "INT")}}
+  \cup {Mk("Mul", "", <<Mk("MathFunction", "max_value", <<x, Mk("MathFunction", "min_value", <<y, Mk("FloatNeg", "2.5", <<>>, "REAL")>>, "REAL")>>, "REAL"), y>>, "REAL")}
+
 Depth == IF "S6_DEPTH" \in DOMAIN IOEnv THEN (IF IOEnv.S6_DEPTH = "3" THEN 3 ELSE 2) ELSE 2
 
 Trees ==
-  UNION {Spine(d, ty) : <<d, ty>> \in (1..Depth) \X {"num", "bool"}} \cup Leaves("num") \cup Pairs \cup Naries \cup CondNests
+  UNION {Spine(d, ty) : <<d, ty>> \in (1..Depth) \X {"num", "bool"}} \cup Leaves("num") \cup Pairs \cup Naries \cup CondNests \cup MathTrees
 
 ---------------------------------------------------------------------------
 \* design-level round trip for one tree:  Parse(Format(t)) matches Canon(t)
